@@ -571,6 +571,11 @@ func (vm *VM) equalDynAny(x, y Value) Value {
 
 func (vm *VM) convert(from, to types.Type, v Value) Value {
 	fu, tu := from.Underlying(), to.Underlying()
+	if _, isBlob := v.(*JSONBlob); isBlob {
+		if _, ok := tu.(*types.Slice); ok {
+			return v
+		}
+	}
 	// string <-> []byte / []rune
 	if tb, ok := tu.(*types.Basic); ok && tb.Info()&types.IsString != 0 {
 		switch fx := fu.(type) {
